@@ -300,6 +300,41 @@ def rule_codec_api(ctx):
 
 
 
+def rule_reader_normalises(ctx):
+    R = "C09.9"
+    ctx.rule(R, "scalar values are normalised on the way into the canonical form: Reader::read decodes each value with the typed reader of its wire kind and re-emits it with the matching typed writer (varint -> read_varint64/write_varint = shortest form; fixed64; fixed32; length-delimited bytes as they are) - a byte-for-byte copy of a varint keeps padded encodings, so two valid serialisations of one value get different canonical bytes")
+    l = [f for f in ctx.F.fns if f.qname.endswith("proto_fmt::Reader::read") and not f.in_testonly()]
+    ctx.floor(R, "Reader::read bodies", len(l), 1)
+    exp = {"Varint": ({"read_varint64"}, {"write_varint"}), "I64": ({"read_fixed64"}, {"write_fixed64"}), "I32": ({"read_fixed32"}, {"write_fixed32"}), "Len": ({"read_bytes"}, set())}
+    for f in l:
+        T = ctx.T(f)
+        wn = common.pnames(f, "proto_fmt::Wire")
+
+        def a_wire(t):
+            return common.is_p(t, wn)
+        W = Walker(ctx, f, [Atom("wire", "enum", a_wire, sorted(exp))])
+        rd, wr = {}, {}
+        for c in T.calls():
+            q = c["q"]
+            if q.startswith("quick_protobuf::BytesReader::") or "BytesReader::" in q:
+                rd.setdefault(q.rsplit("::", 1)[1], []).append(c["bb"])
+            elif "quick_protobuf::Writer" in q or q.startswith("quick_protobuf::writer::Writer::"):
+                m = q.rsplit("::", 1)[1]
+                if m != "new":
+                    wr.setdefault(m, []).append(c["bb"])
+        ctx.ob(R, "typed readers and writers present", bool(rd) and bool(wr), "readers %s, writers %s" % (sorted(rd), sorted(wr)) if rd and wr else "no quick_protobuf reader/writer calls found in Reader::read (anchor missing)", f.loc())
+        tg = {"r:" + k: v for k, v in rd.items()}
+        tg.update({"w:" + k: v for k, v in wr.items()})
+        names, tab = W.table(tg)
+        for k, (er, ew) in sorted(exp.items()):
+            reach = tab.get((k,), set())
+            gr = set(x[2:] for x in reach if x.startswith("r:"))
+            gw = set(x[2:] for x in reach if x.startswith("w:"))
+            ok = gr == er and gw == ew
+            ctx.ob(R, "wire %s" % k, ok, "decoded with %s, re-emitted with %s" % (sorted(er), sorted(ew) or "the bytes themselves") if ok else
+                   "a %s value is read with %s and written with %s (expected %s / %s): the canonical form no longer normalises this wire kind" % (k, sorted(gr), sorted(gw), sorted(er), sorted(ew)), f.loc())
+
+
 def rule_reader_appends(ctx):
     R = "C09.8"
     ctx.rule(R, "the field reader only appends: Reader::read_field adds every value it reads to the caller's list (push / extend) and never replaces, clears or truncates it - a field whose values arrive in several records (packed and unpacked, or several packed chunks) keeps all of them, so every valid serialisation has the same canonical form")
@@ -333,5 +368,5 @@ def rule_reader_appends(ctx):
                "Reader::read_field modifies the caller's value list by %s: values of the same field read from an earlier record are lost, so valid serialisations of one message canonicalise differently" % (bad or "no append at all"), f.loc())
 
 
-RULES = [("C09.8", rule_reader_appends), ("C09.1", rule_read_build_agree), ("C09.2", rule_no_unordered_iteration), ("C09.3", rule_no_narrowing), ("C09.4", rule_canonical_hash),
+RULES = [("C09.8", rule_reader_appends), ("C09.9", rule_reader_normalises), ("C09.1", rule_read_build_agree), ("C09.2", rule_no_unordered_iteration), ("C09.3", rule_no_narrowing), ("C09.4", rule_canonical_hash),
          ("C09.5", rule_canonicaliser), ("C09.6", rule_schema_gate), ("C09.7", rule_codec_api)]
